@@ -35,6 +35,7 @@ class Sched:
         self.steps = []              # [(runnable names, chosen, was_preemption)]
         self.log = []                # history events appended by harness operations, in global order
         self.spawned_during_run = []
+        self.deadlock = ""
 
     # ---- called from controlled threads
     def me(self):
@@ -148,7 +149,9 @@ class Sched:
                     return
                 runnable = [t.name for t in live if t.status == "parked"]
                 if not runnable:
-                    raise Deadlock("all live threads blocked: %s" % [(t.name, t.waiting_on) for t in live])
+                    # every live thread waits for something nobody will provide: an outcome of the code under test, not an error
+                    self.deadlock = "all live threads blocked: %s" % [(t.name, str(t.waiting_on)[:60]) for t in live]
+                    return
                 choice = chooser(n, runnable, current if current in runnable else None)
                 if choice not in runnable:
                     choice = runnable[0]
@@ -211,7 +214,18 @@ class CoopQueue:
             self.s.block_on(self)
         return self.items.popleft()
 
+    def get_nowait(self):
+        self.s.yield_point(("queue.get_nowait", 0))
+        if not self.items:
+            import queue as _q
+            raise _q.Empty()
+        return self.items.popleft()
+
+    def put_nowait(self, x):
+        self.put(x)
+
     def empty(self):
+        self.s.yield_point(("queue.empty", 0))
         return not self.items
 
     def qsize(self):
